@@ -121,7 +121,15 @@ func genC15(t *rapid.T, tier string) (*World, any) {
 	putCRSTree(w, "crs", t, "outer")
 	putCRSTree(w, "crs/nested", t, "nested") // a nested root
 	putCRSTree(w, "outside", nil, "")        // a sibling tree that must never be touched
-	w.Put("crs.conf", dirtyConf)             // beside the root
+	if chance(t, 30, "dirlinks") {
+		// directories linked into the tree from outside (shared plugins, packaged rules): no walk follows them
+		w.Links = map[string]string{
+			"crs/plugins-shared":                  "../outside/rules",
+			"crs/regex-assembly/include/external": "../../../outside/regex-assembly/include",
+			"crs/rules/vendor":                    "../../outside/rules",
+		}
+	}
+	w.Put("crs.conf", dirtyConf) // beside the root
 	w.Put("942100.yaml", dirtyYaml)
 	w.Put("942110.yml", dirtyYaml)
 	p := &C15Params{}
@@ -337,7 +345,7 @@ func init() {
 		Gen:  genC15, Eval: evalC15,
 		QuickChecks: 1200, ThoroughChecks: 20000, Timeout: 20 * time.Second,
 		Assumptions: []string{
-			"symbolic links are not generated (the statement does not speak about them)",
+			"symbolic links to files are not generated (what a writer may do through a link to a file is not something the statement decides); (30%) directories of the sibling tree are linked into the root - no walk follows them, so nothing behind them may change",
 			"a writer may rewrite one of its own targets with identical bytes",
 		},
 		RealStub: realStubDefault,
